@@ -116,6 +116,13 @@ CLAIMED["C20"] = dict(
     ref="DESIGN.md 4/C20",
 )
 
+CLAIMED["C26"] = dict(
+    technique="table agreement between the formatter declared for each of 87 bitstream value targets and the Python type of the serdes primitive that reads it (acceptance table derived from the formatters' __call__ bodies); declared-entry check; handler-order and status-source checks on BitstreamViewer.run",
+    text="Never-255 for arbitrary byte strings is behaviour. Decided: the two ways the viewer's own monitor code can throw on any input -- a formatter given a value type it cannot format, or a target missing from entry_objs -- cannot occur for any target of the description program; the termination/EOF handlers precede the generic one; 255 has a single source guarded by is_internal_error. Non-default display options are not analysed.",
+    note="Trusted: formatter acceptance table; serdes model of bitstream/vc2.py.",
+    ref="DESIGN.md 4/C26",
+)
+
 NOT_APPLICABLE = {
     "C12": "arithmetic over unbounded integers (quantisation error bounds, monotonicity of a rational formula): no structural clause; needs algebra/solver or execution",
     "C13": "partition/telescoping identities of floor arithmetic on runtime sizes; the functions are spec-pinned arithmetic with nothing to decide from code shape",
